@@ -26,6 +26,11 @@ type seqDesc struct {
 	Crash   string   `json:"crash,omitempty"`
 }
 
+// simdiskMode draws the storage back end (0 = object-store stub).
+func simdiskMode(tape *kernel.Tape) simdisk.Mode {
+	return simdisk.Mode(tape.Stream("knobs").Intn(2))
+}
+
 // runInWorld runs body as the single task of a fresh bubble.
 func runInWorld(tape *kernel.Tape, prop string, body func(w *World) *kernel.Violation) *kernel.Outcome {
 	out := &kernel.Outcome{}
